@@ -1002,7 +1002,7 @@ def check_paf(ctx, r, n):
     quick = ctx.tier == "quick"
     lines, cases = [], []
     for i in range(n):
-        c = gen_exp_case(r, paf=True, nmax=(5 if quick else 6) if i % 8 else (5 if quick else 7))
+        c = gen_exp_case(r, paf=True, nmax=(5 if quick else 7) if i % 8 else (6 if quick else 8))
         k = len(c["utility"])
         cutoff = 1e-12
         laws = {}
@@ -1088,9 +1088,293 @@ def check_bernoulli(ctx, r, n):
             ctx.trace_ok()
 
 
+# ------------------------------------------------------------------------------------------------------------------
+# ExponentialCategorical / ExponentialHierarchical
+# ------------------------------------------------------------------------------------------------------------------
+LABEL_POOL = ["a", "B", "c0", "zz", "A1", "m", "k9", "Q", "x_", "b", "Zed", "0", "10", "9", "alpha", "Beta"]
+
+
+def gen_cat_case(r):
+    n = r.randint(1, 8)
+    labels = r.sample(LABEL_POOL, n)
+    eps = draw_eps(r)
+    mode = r.choice(["random", "random", "int", "equal", "circulant", "near", "near", "near-equal"])
+    U = [[0.0] * n for _ in range(n)]
+    if n >= 2:
+        scale = r.choice([1.0, 1.0, 3.0, r.loguniform(1e-2, 1e2)])
+        if mode in ("circulant", "near"):
+            row = [0.0] + [scale * r.choice([1.0, 2.0, r.uniform(0.2, 3.0)]) for _ in range(n - 1)]
+            for k in range(1, n):
+                row[k] = row[n - k] = max(row[k], row[n - k])        # symmetric circulant => equal normalisers
+            for i in range(n):
+                for j in range(n):
+                    U[i][j] = row[(j - i) % n]
+        for i in range(n):
+            for j in range(i + 1, n):
+                if mode == "random":
+                    v = scale * r.choice([r.uniform(0, 1), r.uniform(0, 1), 0.0, 1.0])
+                elif mode == "int":
+                    v = float(r.randint(0, 4))
+                elif mode in ("equal", "near-equal"):
+                    v = scale
+                else:
+                    v = U[i][j]
+                if mode in ("near", "near-equal") and r.chance(0.6):
+                    v *= 1 + r.choice([-1, 1]) * r.loguniform(1e-8, 1e-3)
+                U[i][j] = U[j][i] = v
+        if all(U[i][j] == 0 for i in range(n) for j in range(n)):
+            U[0][1] = U[1][0] = scale
+    ul = []
+    for i in range(n):
+        for j in range(i + 1, n):
+            a, b = (labels[i], labels[j]) if r.chance(0.5) else (labels[j], labels[i])
+            ul.append([a, b, U[i][j]])
+    r.shuffle(ul)
+    if n == 1:
+        ul = [[labels[0], labels[0], r.choice([0.0, 1.0])]]
+    elif r.chance(0.1):
+        ul.insert(r.next() % (len(ul) + 1), [labels[0], labels[0], r.choice([0.0, 2 * max(max(row) for row in U)])])
+    if n >= 2 and r.chance(0.1):
+        a, b, v = ul[r.next() % len(ul)]
+        ul.insert(0, [b, a, v * r.uniform(0, 3)])      # overridden later by the genuine entry
+    return {"epsilon": eps, "utility_list": ul, "mode": mode}
+
+
+def rank_of(labels):
+    return {lab: i for i, lab in enumerate(sorted(labels))}
+
+
+def cat_line(op, eps, triples, value=None, us=()):
+    t = " ".join(f"{a} {b} {fl(v)}" for a, b, v in triples)
+    tail = "" if value is None else f" {value} " + " ".join(fl(u) for u in us)
+    return f"{op} {fl(eps)} {len(triples)} {t}{tail}"
+
+
+def cat_laws_and_check(ctx, r, family, sig, sc, labels, eps, params):
+    """(ii)+(iii) for a built categorical-type mechanism; returns {label: Law}"""
+    laws = {}
+    for x in labels:
+        f = lambda k, x=x: sc.at(k, x)  # noqa
+        segs = extract_steps(f, 0, GRID - 1)
+        if verify_steps(f, segs, r, 4):
+            ctx.disagree(family + ".law", params, "first target with unif <= cum", "probe mismatch")
+        laws[x] = Law()
+        laws[x].add_segs(segs)
+    norms = list(getattr(sc.mech, "_normalising_constant", {}).values())
+    if getattr(sc.mech, "_balanced_tree", False) and norms and max(norms) - min(norms) > 1e-12 * max(norms):
+        sig = "C01:categorical:isclose-balanced"
+        ctx.count("cat_isclose_balanced_cases")
+    for x in labels:
+        for xp in labels:
+            if x != xp:
+                if not dp_check(ctx, sig, family, params, x, xp, laws[x], laws[xp], eps):
+                    return laws
+    return laws
+
+
+def cat_compare(ctx, family, cases, outs):
+    for cs, out in zip(cases, outs):
+        kind, params = cs[0], cs[1]
+        if kind == "law":
+            _, _, ranks, laws, expect_err = cs
+            if expect_err is not None:
+                if out != expect_err:
+                    ctx.disagree(family + ".constructor", params, out, expect_err)
+                else:
+                    ctx.trace_ok()
+                continue
+            parts = out.split(" | ")
+            if not parts[0].startswith("ok"):
+                ctx.disagree(family + ".constructor", params, out, "constructed")
+                continue
+            head = parts[0].split()
+            n = int(head[3])
+            dom = [int(z) for z in head[4:4 + n]]
+            rows = [b2f(int(z)) for z in parts[2].split()]
+            inv = {v: k for k, v in ranks.items()}
+            for i, d in enumerate(dom):
+                model = {inv[t]: rows[i * n + j] for j, t in enumerate(dom)}
+                compare_law(ctx, family + ".law", {**params, "value": inv[d]}, laws[inv[d]], model)
+        else:
+            _, _, ranks, x, us, impl = cs
+            w = out.split()
+            if w[0] != "ok":
+                ctx.disagree(family + ".driver", params, out, None)
+                continue
+            inv = {str(v): k for k, v in ranks.items()}
+            for i, u in enumerate(us):
+                trio = w[1 + 3 * i: 4 + 3 * i]
+                if len(set(trio)) != 1:
+                    ctx.boundary_skipped += 1
+                    continue
+                if inv.get(trio[1], trio[1]) != impl[i]:
+                    ctx.disagree(family + ".randomise", {**params, "value": x, "u": u}, inv.get(trio[1], trio[1]), impl[i])
+                else:
+                    ctx.trace_ok()
+
+
+def cat_output_lines(r, sc, laws, eps, triples, ranks, labels, params, lines, cases, k=2):
+    for x in r.sample(labels, min(k, len(labels))):
+        us = [r.u01() for _ in range(4)] + [0.0, 1 - CELL]
+        cum = 0.0
+        for o, m in list(laws[x].mass.items())[:4]:
+            cum += m
+            us += [min(max(cum + d, 0.0), 1 - CELL) for d in (-CELL, 1e-7)]
+        gu = [g for u in us for g in guard_us(u, 64)]
+        lines.append(cat_line("cat", eps, triples, ranks[x], gu))
+        cases.append(("out", params, ranks, x, us, [sc.at_u(u, x) for u in us]))
+
+
+def check_categorical(ctx, r, n):
+    lines, cases = [], []
+    for _ in range(n):
+        c = gen_cat_case(r)
+        eps, ul = c["epsilon"], c["utility_list"]
+        labels = []
+        for a, b, _ in ul:
+            for z in (a, b):
+                if z not in labels:
+                    labels.append(z)
+        ranks = rank_of(labels)
+        triples = [(ranks[a], ranks[b], v) for a, b, v in ul]
+        try:
+            sc = Scripted(lambda rng: M.ExponentialCategorical(epsilon=eps, utility_list=[list(t) for t in ul], random_state=rng))
+        except (ValueError, ZeroDivisionError, FloatingPointError) as e:
+            lines.append(cat_line("catlaw", eps, triples))
+            cases.append(("law", c, ranks, None, "valueError" if isinstance(e, ValueError) else "skip"))
+            ctx.case(None)
+            continue
+        laws = cat_laws_and_check(ctx, r, "ExponentialCategorical", "C01:categorical:ratio", sc, labels, eps, c)
+        ctx.case(("cat", eps, tuple(map(tuple, ul))) if len(labels) >= 2 else None)
+        lines.append(cat_line("catlaw", eps, triples))
+        cases.append(("law", c, ranks, laws, None))
+        cat_output_lines(r, sc, laws, eps, triples, ranks, labels, c, lines, cases)
+    outs = leanio.run_driver("Discrete", lines)
+    cases = [cs for cs in cases if not (cs[0] == "law" and cs[4] == "skip")] if False else cases
+    cat_compare(ctx, "ExponentialCategorical", [cs for cs in cases], outs)
+    for cs in cases:
+        if cs[0] == "law" and cs[3]:
+            lab = next(iter(cs[3]))
+            ctx.sample({"family": "ExponentialCategorical", "params": cs[1], "value": lab, "law": cs[3][lab].brief(8)})
+            break
+
+
+def gen_hierarchy(r):
+    depth = r.choice([1, 2, 2, 2, 3])
+    n_target = r.randint(2, 8)
+    labels = r.sample(LABEL_POOL, n_target)
+    regular = r.chance(0.4)
+    pos = [0]
+
+    def build(d, budget):
+        # returns a nested list using up to `budget` labels, all leaves at depth d below this node
+        if d == 0:
+            lab = labels[pos[0]]
+            pos[0] += 1
+            return lab
+        kids = []
+        k = r.randint(1, max(1, min(3, budget)))
+        share = max(1, budget // k)
+        for _ in range(k):
+            if pos[0] >= len(labels):
+                break
+            kids.append(build(d - 1, share))
+        return kids
+    top = []
+    if regular:
+        b = r.choice([2, 2, 3])
+        d = depth
+
+        def reg(dd):
+            if dd == 0:
+                if pos[0] >= len(LABEL_POOL):
+                    return None
+                lab = LABEL_POOL[pos[0]]
+                pos[0] += 1
+                return lab
+            return [reg(dd - 1) for _ in range(b)]
+        d = min(d, 3 if b == 2 else 2)
+        top = reg(d)
+    else:
+        while pos[0] < len(labels):
+            top.append(build(depth - 1, r.randint(1, 4)))
+    if r.chance(0.08):                      # a leaf at the wrong level: the constructor must refuse
+        top.append([["Zz9"]] if depth < 3 else "Zz9")
+    return top
+
+
+def flat_leaves(h):
+    out = []
+    for v in h:
+        out += [v] if isinstance(v, str) else flat_leaves(v)
+    return out
+
+
+def hier_tokens(h, ranks):
+    toks = []
+    for v in h:
+        if isinstance(v, str):
+            toks.append(str(ranks[v]))
+        else:
+            toks += ["("] + hier_tokens(v, ranks) + [")"]
+    return toks
+
+
+def check_hierarchical(ctx, r, n):
+    hlines, hcases = [], []
+    for _ in range(n):
+        h = gen_hierarchy(r)
+        eps = draw_eps(r)
+        labels = flat_leaves(h)
+        ranks = rank_of(labels)
+        try:
+            sc = Scripted(lambda rng: M.ExponentialHierarchical(epsilon=eps, hierarchy=h, random_state=rng))
+            impl = sorted((min(ranks[a], ranks[b]), max(ranks[a], ranks[b]), int(v)) for a, b, v in sc.mech.utility_list)
+        except ValueError:
+            sc, impl = None, "valueError"
+        hlines.append("hier " + " ".join(hier_tokens(h, ranks)))
+        hcases.append((h, eps, labels, ranks, sc, impl))
+    houts = leanio.run_driver("Discrete", hlines)
+    lines, cases = [], []
+    for (h, eps, labels, ranks, sc, impl), out in zip(hcases, houts):
+        params = {"epsilon": eps, "hierarchy": h}
+        w = out.split()
+        if impl == "valueError" or w[0] != "ok":
+            if not (impl == "valueError" and w[0] == "valueError"):
+                ctx.disagree("ExponentialHierarchical.constructor", params, out, impl)
+            else:
+                ctx.trace_ok()
+            ctx.case(None)
+            continue
+        nums = [int(z) for z in w[1:]]
+        mtriples = [(nums[i], nums[i + 1], nums[i + 2]) for i in range(0, len(nums), 3)]
+        if sorted((min(a, b), max(a, b), v) for a, b, v in mtriples) != impl:
+            ctx.disagree("ExponentialHierarchical.utility_list", params, mtriples, impl)
+            continue
+        ctx.trace_ok()
+        if len(labels) < 2:
+            ctx.case(None)
+            continue
+        laws = cat_laws_and_check(ctx, r, "ExponentialHierarchical", "C01:hierarchical:ratio", sc, labels, eps, params)
+        ctx.case(("hier", eps, repr(h)))
+        triples = [(a, b, float(v)) for a, b, v in mtriples]
+        lines.append(cat_line("catlaw", eps, triples))
+        cases.append(("law", params, ranks, laws, None))
+        cat_output_lines(r, sc, laws, eps, triples, ranks, labels, params, lines, cases)
+    outs = leanio.run_driver("Discrete", lines) if lines else []
+    cat_compare(ctx, "ExponentialHierarchical", cases, outs)
+    for cs in cases:
+        if cs[0] == "law" and cs[3]:
+            lab = next(iter(cs[3]))
+            ctx.sample({"family": "ExponentialHierarchical", "params": cs[1], "value": lab, "law": cs[3][lab].brief(8)})
+            break
+
+
 def check(ctx):
     check_binary(ctx, ctx.fork("binary"), ctx.budget(25, 300))
     check_geometric(ctx, ctx.fork("geometric"), ctx.budget(60, 1200))
     check_exponential(ctx, ctx.fork("exponential"), ctx.budget(150, 3000))
     check_bernoulli(ctx, ctx.fork("bernoulli"), ctx.budget(30, 300))
     check_paf(ctx, ctx.fork("paf"), ctx.budget(40, 500))
+    check_categorical(ctx, ctx.fork("categorical"), ctx.budget(120, 2500))
+    check_hierarchical(ctx, ctx.fork("hierarchical"), ctx.budget(60, 1000))
